@@ -4489,6 +4489,35 @@ M('C08', 'sigv4-signature-unbounded-again', PK, '        send = self.header.leng
   '        self.signature.parse(packet)\n', 'C08.d', more=[(SS, '        self._sig.header.length = self.header.length - 1\n        self._sig.parse(packet)\n', '        self._sig.parse(packet)\n')])
 M('C08', 'sigv4-signature-in-place-only', PK, '        send = self.header.length - 1 - (plen - len(packet))\n        self.signature.parse(packet[:send])\n        del packet[:send]\n',
   '        self.signature.parse(packet)\n', 'C08.d')
+# wave 6: subpacket header identity (C08.i), integer fields keep their wire range (C08.c), slice-assignment prepend (C08.d)
+M('C08', 'subheader-critical-from-masked-typeid', ST, '        v = self.bytes_to_int(val)\n        self.typeid = v\n        self.critical = bool(v & 0x80)\n',
+  '        self.typeid = self.bytes_to_int(val)\n        self.critical = bool(self.typeid & 0x80)\n', 'C08.i')
+M('C08', 'subheader-critical-bit-6', ST, '        v = self.bytes_to_int(val)\n        self.typeid = v\n        self.critical = bool(v & 0x80)\n',
+  '        v = self.bytes_to_int(val)\n        self.typeid = v\n        self.critical = bool(v & 0x40)\n', 'C08.i')
+M('C08', 'subheader-critical-dropped', ST, '        v = self.bytes_to_int(val)\n        self.typeid = v\n        self.critical = bool(v & 0x80)\n',
+  '        v = self.bytes_to_int(val)\n        self.typeid = v\n', 'C08.i')
+M('C08', 'subheader-writer-critical-shift-6', ST, '(int(self.critical) << 7) + self.typeid',
+  '(int(self.critical) << 6) + self.typeid', 'C08.i')
+T('C08', 'twin-subheader-critical-shift', ST, '        v = self.bytes_to_int(val)\n        self.typeid = v\n        self.critical = bool(v & 0x80)\n',
+  '        octet = self.bytes_to_int(val)\n        self.critical = (octet >> 7) == 1\n        self.typeid = octet\n')
+M('C08', 'sigv4-halg-unknown-to-invalid', PK, '        except ValueError:  # pragma: no cover\n            self._halg = val\n\n    @property\n    def signature(self):',
+  '        except ValueError:  # pragma: no cover\n            self._halg = HashAlgorithm.Invalid\n\n    @property\n    def signature(self):', 'C08.c')
+M('C08', 'sigv4-halg-unknown-masked', PK, '        except ValueError:  # pragma: no cover\n            self._halg = val\n\n    @property\n    def signature(self):',
+  '        except ValueError:  # pragma: no cover\n            self._halg = val & 0x0f\n\n    @property\n    def signature(self):', 'C08.c')
+M('C08', 'trustsig-amount-clamp-120', SS, '        self._amount = max(0, min(val, 255))',
+  '        self._amount = max(0, min(val, 120))', 'C08.c')
+M('C08', 'trustsig-level-clamp-2', SS, '    def level_int(self, val):\n        self._level = val\n',
+  '    def level_int(self, val):\n        self._level = min(val, 2)\n', 'C08.c')
+M('C08', 'trustsig-amount-floor-1', SS, '        self._amount = max(0, min(val, 255))',
+  '        self._amount = max(1, min(val, 255))', 'C08.c')
+T('C08', 'twin-trustsig-amount-clamp-respelled', SS, '        self._amount = max(0, min(val, 255))',
+  '        amount = val\n        if amount > 255:\n            amount = 255\n        if amount < 0:\n            amount = 0\n        self._amount = amount')
+T('C08', 'twin-skesk-prepend-slice-assign', PK, '        packet.insert(0, 255)\n',
+  "        packet[:0] = b'\\xff'\n")
+M('C08', 'skesk-prepend-two-octets', PK, '        packet.insert(0, 255)\n',
+  "        packet[:0] = b'\\xff\\xff'\n", 'C08.d')
+M('C08', 'skesk-prepend-remainder-minus-1', PK, '        packet.insert(0, 255)\n',
+  "        packet[:0] = b'\\xff'\n", 'C08.d', more=[(PK, '        ctend = self.header.length - len(self.s2k)\n', '        ctend = self.header.length - len(self.s2k) - 1\n')])
 # --- end C08 hardening
 M('C09', 'old-tag-shift', PT, "        tag |= (self.tag) if self._lenfmt else ((self.tag << 2) | {1: 0, 2: 1, 4: 2, 0: 3}[self.llen])", "        tag |= (self.tag) if self._lenfmt else ((self.tag << 1) | {1: 0, 2: 1, 4: 2, 0: 3}[self.llen])", 'C09.8')
 M('C09', 'tag-mask-1f', PT, "        _tag = (val & 0x3F) if self._lenfmt else ((val & 0x3C) >> 2)", "        _tag = (val & 0x1F) if self._lenfmt else ((val & 0x3C) >> 2)", 'C09.8')
